@@ -12,7 +12,7 @@ Proof. exact check_mode_is_documented. Qed.
 Print Assumptions C19_mode_language_is_documented.
 
 Theorem C19_invalid_mode_rejected : forall m stdio f, check_mode m = false -> path_check m stdio f = ValErr.
-Proof. intros m stdio f H. unfold path_check. rewrite H. reflexivity. Qed.
+Proof. intros m stdio f H. unfold path_check, path_check_fx. rewrite H. reflexivity. Qed.
 Print Assumptions C19_invalid_mode_rejected.
 
 (* ---- FULL STATEMENT (false on the pinned tree, see the three _refuted witnesses below):
@@ -45,6 +45,27 @@ Theorem C19_findings_exact : forall (fl : mfl) (f : facts),
   (guard fl f = false -> path_check_fl fl f <> spec_fl fl f).
 Proof. exact findings_exact. Qed.
 Print Assumptions C19_findings_exact.
+
+(* ---- the repaired tree(s) --------------------------------------------------------------------------
+   The model is written once with the patched lines of fixes/C19-*.patch selected by a `fixes` record. For EVERY
+   combination of landed repairs the guarded statement holds with the guard shrunk accordingly ... *)
+Theorem C19_mode_exact_any_repairs : forall (fxs : fixes) (m : str) (f : facts),
+  check_mode m = true -> has 117 m = false -> has 115 m = false ->
+  consistent f = true -> guard_fx fxs (flags_of m) f = true ->
+  (path_check_fx fxs m false f = Accept <-> sat (flags_of m) f = true) /\
+  (path_check_fx fxs m false f <> Accept -> path_check_fx fxs m false f = PathErr).
+Proof. exact mode_exact_str_fx. Qed.
+Print Assumptions C19_mode_exact_any_repairs.
+
+(* ... and with all three Path repairs the FULL STATEMENT above holds, without any guard: the repaired Path accepts
+   iff every flag of the mode holds and fails with PathError otherwise, for every mode and every consistent file
+   system answer. *)
+Theorem C19_mode_exact_repaired : forall (m : str) (f : facts),
+  check_mode m = true -> has 117 m = false -> has 115 m = false -> consistent f = true ->
+  (path_check_fx all_fixes m false f = Accept <-> sat (flags_of m) f = true) /\
+  (path_check_fx all_fixes m false f <> Accept -> path_check_fx all_fixes m false f = PathErr).
+Proof. exact mode_exact_str_repaired. Qed.
+Print Assumptions C19_mode_exact_repaired.
 
 Definition missing_in_writeable_dir : facts :=
   {| exists_ := false; kd := KReg; ar := false; aw := false; ax := false;
@@ -85,6 +106,13 @@ Example C19_guard_inhabited :
   guard (flags_of [102; 119]%N) regular_file_r = true /\ path_check [102; 119]%N false regular_file_r = PathErr.
 Proof. vm_compute. auto 10. Qed.
 
+(* the repairs do what they are meant to do on the three witnesses above *)
+Example C19_repairs_take_effect :
+  path_check_fx all_fixes [70]%N false missing_in_writeable_dir = Accept /\
+  path_check_fx all_fixes [102; 99]%N false fifo_rw = Accept /\
+  path_check_fx all_fixes [102; 99; 99]%N false below_a_regular_file = PathErr.
+Proof. vm_compute. auto. Qed.
+
 (* ---- relative / absolute --------------------------------------------------------------------------- *)
 (* relative is the spelling given; absolute is absolute and is the user-expanded spelling itself or that
    spelling below the working directory — for every home, every absolute cwd and every spelling. *)
@@ -100,34 +128,42 @@ Print Assumptions C19_relative_abs.
    sections, path values, broken values, missing files) and whatever the set of existing files: loading
    it leaves (os.getcwd(), current_path_dir) exactly as they were — on success and when the load fails
    at any point. *)
-Theorem C19_cwd_restored : forall (files : list str) (s : st) (top : str) (body : list node),
-  is_abs (cwd s) = true -> fst (run_top files s top body) = s.
-Proof. intros files s top body H. rewrite (run_top_pure files s top body H). reflexivity. Qed.
+Theorem C19_cwd_restored : forall (fxs : fixes) (files : list str) (s : st) (top : str) (body : list node),
+  is_abs (cwd s) = true -> fst (run_top fxs files s top body) = s.
+Proof. intros fxs files s top body H. rewrite (run_top_pure fxs files s top body H). reflexivity. Qed.
 Print Assumptions C19_cwd_restored.
 
 (* the same for any value inside a config file, at any depth *)
-Theorem C19_nested_value_restores : forall (files : list str) (n : node) (s : st),
-  is_abs (cwd s) = true -> fst (run_node files n s) = s.
-Proof. intros files n s H. rewrite (run_node_pure files n s H). reflexivity. Qed.
+Theorem C19_nested_value_restores : forall (fxs : fixes) (files : list str) (n : node) (s : st),
+  is_abs (cwd s) = true -> fst (run_node fxs files n s) = s.
+Proof. intros fxs files n s H. rewrite (run_node_pure fxs files n s H). reflexivity. Qed.
 Print Assumptions C19_nested_value_restores.
 
 (* FULL STATEMENT (false on the pinned tree, see C19_list_file_relative_refuted):
      forall files s top body, is_abs (cwd s) = true ->
-       snd (run_top files s top body) = spec_top files (cwd s) top body.
+       snd (run_top no_fixes files s top body) = spec_top files (cwd s) top body.
    PROVED: the same with `tree_guard files (cwd s) top body = true`, which only restricts how LIST files
    (List[path] given as a file of paths) are spelled. The outcome is the state-free reference semantics:
    every relative path is resolved against the directory of the config file that mentions it, for any
    nesting; the load fails iff some mentioned file is missing (or a value is broken). *)
 Theorem C19_relative_follows_config : forall (files : list str) (s : st) (top : str) (body : list node),
-  is_abs (cwd s) = true -> tree_guard files (cwd s) top body = true ->
-  snd (run_top files s top body) = spec_top files (cwd s) top body.
-Proof. intros files s top body H G. rewrite (run_top_ok files s top body H G). reflexivity. Qed.
+  is_abs (cwd s) = true -> tree_guard files false (cwd s) top body = true ->
+  snd (run_top no_fixes files s top body) = spec_top files (cwd s) top body.
+Proof. intros files s top body H G. rewrite (run_top_ok no_fixes files s top body H G). reflexivity. Qed.
 Print Assumptions C19_relative_follows_config.
 
+(* with fixes/C19-list-file-relative.patch (fx_lf) the guard is gone: the FULL STATEMENT, for every tree *)
+Theorem C19_relative_follows_config_repaired :
+  forall (fxs : fixes) (files : list str) (s : st) (top : str) (body : list node),
+  fx_lf fxs = true -> is_abs (cwd s) = true ->
+  snd (run_top fxs files s top body) = spec_top files (cwd s) top body.
+Proof. exact run_top_repaired. Qed.
+Print Assumptions C19_relative_follows_config_repaired.
+
 Theorem C19_nested_value_follows_config : forall (files : list str) (n : node) (s : st),
-  is_abs (cwd s) = true -> lf_guard files (cwd s) n = true ->
-  run_node files n s = (s, spec_node files (cwd s) n).
-Proof. exact run_node_ok. Qed.
+  is_abs (cwd s) = true -> lf_guard files false (cwd s) n = true ->
+  run_node no_fixes files n s = (s, spec_node files (cwd s) n).
+Proof. exact (run_node_ok no_fixes). Qed.
 Print Assumptions C19_nested_value_follows_config.
 
 (* /B/run is the working directory; /B/a/top.yaml mentions ../b/mid.yaml, which mentions data.txt *)
@@ -140,13 +176,13 @@ Definition ex_top : str := s_of [46;46;47;97;47;116].  (* ../a/t *)
 Definition ex_body : list node := [NLoad (s_of [46;46;47;98;47;109]) [NPath 1 (s_of [100])]]. (* ../b/m -> d *)
 
 Example C19_nested_example :
-  run_top ex_files {| cwd := ex_cwd; cpd := None |} ex_top ex_body
+  run_top no_fixes ex_files {| cwd := ex_cwd; cpd := None |} ex_top ex_body
   = ({| cwd := ex_cwd; cpd := None |},
      Ok [(1, s_of [100], s_of [47;66;47;98], s_of [47;66;47;98;47;100])]).   (* d resolved in /B/b *)
 Proof. vm_compute. reflexivity. Qed.
 
 (* the guard is satisfiable with nested files, and trees without list files are always inside it *)
-Example C19_tree_guard_inhabited : tree_guard ex_files ex_cwd ex_top ex_body = true.
+Example C19_tree_guard_inhabited : tree_guard ex_files false ex_cwd ex_top ex_body = true.
 Proof. vm_compute. reflexivity. Qed.
 
 (* finding 4: from /B/r, `lst: x/l` names the existing list file /B/r/x/l whose line `d` names the existing
@@ -158,13 +194,23 @@ Definition lf_files : list str :=
 Theorem C19_list_file_relative_refuted : exists files s top body,
   is_abs (cwd s) = true /\
   spec_top files (cwd s) top body = Ok [(1, s_of [100], s_of [47;66;47;114;47;120], s_of [47;66;47;114;47;120;47;100])] /\
-  snd (run_top files s top body) = Err.
+  snd (run_top no_fixes files s top body) = Err /\
+  snd (run_top all_fixes files s top body) = spec_top files (cwd s) top body.
 Proof.
   exists lf_files, {| cwd := ex_cwd; cpd := None |}, (s_of [116]),
-         [NListFile (s_of [120;47;108]) [NPath 1 (s_of [100])]].
+         [NListFile true (s_of [120;47;108]) [NPath 1 (s_of [100])]].
   vm_compute. auto.
 Qed.
 Print Assumptions C19_list_file_relative_refuted.
+
+(* a list file whose content is NOT loadable as YAML takes another route through _check_type and is resolved
+   correctly even when spelled relatively (inside the guard; same files as in the witness above) *)
+Example C19_list_file_not_yaml_inside_guard :
+  tree_guard lf_files false ex_cwd (s_of [116]) [NListFile false (s_of [120;47;108]) [NPath 1 (s_of [100])]] = true /\
+  snd (run_top no_fixes lf_files {| cwd := ex_cwd; cpd := None |} (s_of [116])
+         [NListFile false (s_of [120;47;108]) [NPath 1 (s_of [100])]])
+  = Ok [(1, s_of [100], s_of [47;66;47;114;47;120], s_of [47;66;47;114;47;120;47;100])].
+Proof. vm_compute. auto. Qed.
 
 (* the restoration theorem is not vacuous: the same bracket without `finally` leaves the process in the
    config file's directory when the body fails *)
